@@ -48,6 +48,12 @@ def cases(tier, seed):
                 for cls in ("zero_weights", "huge_bias", "all_equal", "zero_bias", "moderate"):
                     out.append({"kind": kind, "nv": nv, "nh": nh, "rep": 0, "cls": cls,
                                 "seed": seed})
+    # wider systems than any unit test builds (sizes around powers of two and beyond internal chunking thresholds a
+    # refactoring might introduce): the reference marginal is closed-form in the hidden units, so 2^16 rows are cheap
+    for kind in ("positive", "complex"):
+        for nv, nh in ((8, 3), (9, 12), (12, 2), (15, 4), (16, 1)):
+            for r in range(1 if tier == "quick" else 6):
+                out.append({"kind": kind, "nv": nv, "nh": nh, "rep": r, "cls": "moderate", "seed": seed})
     return out
 
 
